@@ -34,11 +34,13 @@ def oracle(k, w):
         ops = np.asarray(w.ops)
         exp = np.zeros_like(np.asarray(w.abuf))
         for o in ops:
-            if o[6] >= 0:
+            # the accumulation-control row of the LINE the op writes (the table handed to the simulator, not the op's copy of it)
+            acc, wr, wf = (int(v) for v in k.a_ctrl[o[1]]) if o[1] < len(k.a_ctrl) else (-1, 0, 0)
+            if acc >= 0:
                 for lane in range(k.sims):
                     body, _ = wo.waveform(w, int(o[1]), lane)
                     r, f = wo.count_edges(body)
-                    exp[o[6], lane] += r * o[7] + f * o[8]
+                    exp[acc, lane] += r * wr + f * wf
         if w.abuf_len > 0 and not np.array_equal(exp, np.asarray(w.abuf)):
             return f'accumulated switching activity {np.asarray(w.abuf).tolist()} differs from the weighted transition counts {exp.tolist()}'
     return None
